@@ -5,7 +5,8 @@
 (* C10_TRACES is a JSON file: a sequence of traces                         *)
 (*   [id, fns : <<<<code, env>>, ..>>, ev : <<event, ..>>]                  *)
 (* recorded from real multi-threaded runs of malt (vf/c10_probe.py).  An   *)
-(* event is [th, ev, key, sub, env, fac, res] (all integers but ev).       *)
+(* event is [th, ev, key, sub, env, fac, res]: integers, but ev (a string) *)
+(* and fac (a factory name <<code, opts, n>>, <<0, 0, 0>> = none/unknown).  *)
 (* Each trace is checked in two modes (variable `mode`):                   *)
 (*                                                                         *)
 (* "strict": every event must be an action of ConvCache taken by that      *)
@@ -88,28 +89,27 @@ Obs ==
      IN
      \/ /\ e.ev = "req"
         /\ stack' = Push(t, NewFrame(F(e.key, e.env), e.sub))
-        /\ UNCHANGED <<fns, used, cache, owner, depth, ntr, nfac, facKey, facEnv, returned, cnt>>
+        /\ UNCHANGED <<fns, used, cache, owner, depth, ntr, facEnv, returned, cnt>>
      \/ /\ e.ev = "transform_ok" /\ Busy(t)
-        /\ nfac' = nfac + 1 /\ facKey' = Append(facKey, RealKey(Top(t))) /\ facEnv' = Append(facEnv, 0)
         /\ ntr' = [ntr EXCEPT ![RealKey(Top(t))] = @ + 1]
-        /\ UNCHANGED <<fns, used, cache, owner, depth, stack, returned, cnt>>
+        /\ UNCHANGED <<fns, used, cache, owner, depth, stack, facEnv, returned, cnt>>
      \/ /\ e.ev = "store" /\ <<e.key, e.sub>> \in Keys
         /\ cache' = [cache EXCEPT ![<<e.key, e.sub>>] = e.fac]
-        /\ UNCHANGED <<fns, used, owner, depth, stack, ntr, nfac, facKey, facEnv, returned, cnt>>
+        /\ UNCHANGED <<fns, used, owner, depth, stack, ntr, facEnv, returned, cnt>>
      \/ /\ e.ev = "store" /\ <<e.key, e.sub>> \notin Keys /\ UNCHANGED vars
      \/ /\ e.ev = "inst" /\ Busy(t)
         /\ stack' = SetTop(t, [Top(t) EXCEPT !.fac = e.fac, !.renv = e.env, !.pc = "obs"])
-        /\ UNCHANGED <<fns, used, cache, owner, depth, ntr, nfac, facKey, facEnv, returned, cnt>>
+        /\ UNCHANGED <<fns, used, cache, owner, depth, ntr, facEnv, returned, cnt>>
      \/ /\ e.ev = "ret" /\ Busy(t)
         /\ LET fr == Top(t) IN
              returned' = returned \cup {[code |-> fr.code, env |-> fr.env, o |-> fr.o, fac |-> fr.fac, renv |-> fr.renv]}
         /\ stack' = Pop(t)
-        /\ UNCHANGED <<fns, used, cache, owner, depth, ntr, nfac, facKey, facEnv, cnt>>
+        /\ UNCHANGED <<fns, used, cache, owner, depth, ntr, facEnv, cnt>>
      \/ /\ e.ev = "err" /\ Busy(t) /\ stack' = Pop(t)
-        /\ UNCHANGED <<fns, used, cache, owner, depth, ntr, nfac, facKey, facEnv, returned, cnt>>
+        /\ UNCHANGED <<fns, used, cache, owner, depth, ntr, facEnv, returned, cnt>>
      \/ /\ e.ev = "collect"
-        /\ cache' = [k \in Keys |-> IF k[1] = e.key THEN 0 ELSE cache[k]]
-        /\ UNCHANGED <<fns, used, owner, depth, stack, ntr, nfac, facKey, facEnv, returned, cnt>>
+        /\ cache' = [k \in Keys |-> IF k[1] = e.key THEN NoFac ELSE cache[k]]
+        /\ UNCHANGED <<fns, used, owner, depth, stack, ntr, facEnv, returned, cnt>>
      \/ e.ev \notin ObsEvents /\ UNCHANGED vars
 
 TNext == \/ mode = "strict" /\ Strict
@@ -121,7 +121,7 @@ BadAmo   == {k \in Keys : ntr[k] > 1}
 BadCoh   == {r \in returned : ~CoherentRec(r)}
 BadAlias == {<<r1, r2>> \in returned \X returned :
                (r1.o # r2.o \/ r1.env # r2.env) /\ <<r1.fac, r1.renv>> = <<r2.fac, r2.renv>>}
-BadStale == {r \in returned : ~(r.fac \in 1..nfac /\ facKey[r.fac][1] = r.code)}
+BadStale == {r \in returned : r.fac[1] # r.code}
 PcOf(t) == IF t \in Threads THEN (IF Busy(t) THEN Top(t).pc ELSE "idle") ELSE "env"
 
 Report ==
@@ -129,7 +129,7 @@ Report ==
        PrintT(ToJson([k |-> "end", id |-> Traces[tr].id, mode |-> mode,
                       amo |-> BadAmo, coh |-> BadCoh, alias |-> BadAlias, stale |-> BadStale,
                       lockok |-> (mode = "obs" \/ LockDiscipline),
-                      nfac |-> nfac, nret |-> Cardinality(returned)]))
+                      nret |-> Cardinality(returned)]))
   /\ (Diag /\ l <= Len(Ev)) =>
        PrintT(ToJson([k |-> "at", id |-> Traces[tr].id, mode |-> mode, l |-> l,
                       ev |-> Ev[l].ev, th |-> Ev[l].th, pc |-> PcOf(Ev[l].th)]))
